@@ -71,7 +71,16 @@ class ExcelType:
         return Number(float(Number.cast(self)) / ovalue)
 
     def __pow__(self, other):
-        return Number(Number.cast(self).value ** Number.cast(other).value)
+        base = Number.cast(self).value
+        exponent = Number.cast(other).value
+        if base == 0 and exponent < 0:
+            raise xlerrors.DivZeroExcelError()
+        if base < 0 and exponent != int(exponent):
+            raise xlerrors.NumExcelError()
+        try:
+            return Number(base ** exponent)
+        except OverflowError:
+            raise xlerrors.NumExcelError()
 
     def __and__(self, other):
         # Highjacking bitwise "and" to implement logical "and"
